@@ -1238,6 +1238,11 @@ mut("C19", "empty-parentheses-accepted", "R19-6|grammar|infix-agreement", "the g
 mut("C19", "trailing-operator-accepted", "R19-6|grammar|infix-agreement", "the grammar accepts `1 +`",
     ("src/calculator/grammar.pest", "expr = { term ~ (operation ~ term)* }", "expr = { term ~ (operation ~ term?)* }"))
 
+mut("C19", "caret-not-an-operator", "R19-7|tools::is_arithmetic|classification", "`2 ^ 3` is no longer classified as arithmetic",
+    (TL, 'if !re_contains(line, r"\\+|\\-|\\*|/|\\^") {', 'if !re_contains(line, r"\\+|\\-|\\*|/") {'))
+mut("C19", "classification-ends-anywhere", "R19-7|tools::is_arithmetic|classification", "the closing class of the line pattern admits `|`",
+    (TL, 'r"^[ 0-9\\.\\(\\)\\+\\-\\*/\\^]+[\\.0-9 \\)]$"', 'r"^[ 0-9\\.\\(\\)\\+\\-\\*/\\^]+[\\.0-9 \\)|]$"'))
+
 # ------------------------------------------------------------------ more refactors
 ref("history-params-vec", ["C18"], "bind the INSERT parameters through a params! style slice",
     (H, "    match conn.execute(&sql, [line.trim(), info.as_str()]) {",
